@@ -257,7 +257,18 @@ def tbLine (d : TBDrv) (lineNo : Nat) (ts : List String) : TBDrv × List String 
     | none => (d, [s!"BADLINE {lineNo} snap-opened"])
   | "opts" :: rest =>
     let (mon', vs) := TBSpec.onOpts d.mon rest
-    viol { d with mon := mon' } vs lineNo
+    -- correspondence: the model's prediction of what the backend receives
+    let implPs := match rest.findSome? (fun t => match t.splitOn "=" with | ["players", b] => some b | _ => none) with
+      | some b => TBSpec.parseOptsPlayers b | none => []
+    let implBlind := match rest.findSome? (fun t => match t.splitOn "=" with | ["blind", b] => some b | _ => none) with
+      | some b => (b.splitOn ",").filterMap (·.toInt?) | none => []
+    let implAnte := (TBSpec.argInt rest "ante").getD (-999)
+    let modelBlind := match m.gameBlind with | some b => (b.ante, [b.dealer, b.sb, b.bb]) | none => (-998, [])
+    if handOptions m == implPs && modelBlind == (implAnte, implBlind) then viol { d with mon := mon' } vs lineNo
+    else
+      let (d2, o2) := viol { d with mon := mon' } vs lineNo
+      let (d3, o3) := mism d2 s!"op=create-game-options model={repr (handOptions m)} impl={repr implPs}"
+      (d3, o2 ++ o3)
   | "settle" :: rest =>
     match (kv rest "res") with
     | some rs =>
